@@ -6,7 +6,7 @@ import os
 import gogen
 import vlib
 
-ANON = {"closure": 1, "deferpanic": 1, "goroutine": 1}
+ANON = {"closure": 1, "deferpanic": 1, "goroutine": 1, "closurerec": 1}
 DIFF_SPEC = os.path.join(vlib.SPEC, "diff")
 
 
@@ -34,6 +34,8 @@ def literal_id(shape, k, edit):
         return "lit:deferpanic"
     if shape == "goroutine":
         return "lit:goroutine:a%s%d" % (op, k2 + 1)
+    if shape == "closurerec":
+        return "lit:closurerec"     # the literal's text is `return <enclosing function>(a+1, n-1)`: renamed with it, else unchanged
     return "lit:?"
 
 
